@@ -33,6 +33,15 @@
 (*                      summand whatever the size of its pool              *)
 (*   "DeepAstuple"      substitution into a node with non-SymPy attributes *)
 (*                      flattens nested nodes to plain tuples              *)
+(*   "DropIndexUnusedAfterSubst"  cleanup decides "does not occur" on the  *)
+(*                      summand *after* the single-valued indices were     *)
+(*                      substituted (an index can drop out of Z(0, j))     *)
+(*                                                                         *)
+(* One head is interpreted: Z(a, b) is zero as soon as one argument is     *)
+(* zero (what a product does).  SymPy evaluates this when the object is    *)
+(* constructed, so every operation that rebuilds a node normalises it, and *)
+(* zero summands vanish from sums.  With it a term can lose a symbol by a  *)
+(* substitution of *another* symbol, which no free head can express.       *)
 (***************************************************************************)
 EXTENDS Integers, Sequences, FiniteSets, TLC
 
@@ -46,6 +55,9 @@ Node(c, args, att) == Mk("node", c, args, att, <<>>, {})
 Unf(c, args, att)  == Mk("unf", c, args, att, <<>>, {})
 Pool(body, ix)     == Mk("pool", "", <<body>>, <<>>, ix, {})
 SumT(bag)          == Mk("sum", "", <<>>, <<>>, <<>>, bag)
+Absorbing == {"Z"}
+Zero == Val("0")
+NormNode(t) == IF t.k = "node" /\ t.h \in Absorbing /\ \E n \in DOMAIN t.a : t.a[n] = Zero THEN Zero ELSE t
 
 Range(f) == { f[x] : x \in DOMAIN f }
 Body(t)  == t.a[1]
@@ -56,19 +68,26 @@ RECURSIVE SumOver(_, _)
 SumOver(f, S) == IF S = {} THEN 0
                  ELSE LET x == CHOOSE y \in S : TRUE IN f[x] + SumOver(f, S \ {x})
 BagCount(b, e) == IF \E p \in b : p[1] = e THEN (CHOOSE p \in b : p[1] = e)[2] ELSE 0
-BagOf(t)  == IF t.k = "sum" THEN t.bg ELSE { <<t, 1>> }
+BagOf(t)  == IF t.k = "sum" THEN t.bg ELSE IF t = Zero THEN {} ELSE { <<t, 1>> }
 \* a set of <<multiplier, bag>> pairs (pairwise different) -> the bag of their weighted union
 BagJoin(parts) ==
   LET elems == UNION { { q[1] : q \in p[2] } : p \in parts }
   IN { <<e, SumOver([p \in parts |-> p[1] * BagCount(p[2], e)], parts)>> : e \in elems }
 \* the canonical term of a bag: nested sums are flattened (Add is associative), a bag with a
 \* single element of count 1 is that element
+\* every element e of bag b replaced by the bag F(e), counts multiplied and added up (two elements may have the
+\* same image: a substitution x -> y maps f(x) and f(y) to the same term)
+BagFlatMap(b, F(_)) ==
+  LET src   == { p[1] : p \in b }
+      elems == UNION { { q[1] : q \in F(e) } : e \in src }
+  IN { <<x, SumOver([e \in src |-> BagCount(b, e) * BagCount(F(e), x)], src)>> : x \in elems }
 NormSum(b) ==
-  LET fb == BagJoin({ <<p[2], BagOf(p[1])>> : p \in b })
-  IN IF Cardinality(fb) = 1 /\ (CHOOSE p \in fb : TRUE)[2] = 1
+  LET fb == BagFlatMap(b, BagOf)
+  IN IF fb = {} THEN Zero
+     ELSE IF Cardinality(fb) = 1 /\ (CHOOSE p \in fb : TRUE)[2] = 1
      THEN (CHOOSE p \in fb : TRUE)[1] ELSE SumT(fb)
 \* image of a bag under a map given as a function on its elements
-BagImage(b, img) == BagJoin({ <<p[2], BagOf(img[p[1]])>> : p \in b })
+BagImage(b, img) == BagFlatMap(b, LAMBDA e : BagOf(img[e]))
 
 \* ---- symbols -----------------------------------------------------------------------
 RECURSIVE FreeSyms(_)
@@ -121,7 +140,7 @@ Subst(t, m) ==
          LET new == [n \in DOMAIN t.a |-> Subst(t.a[n], m)] IN
          IF "DeepAstuple" \in Dev /\ t.at # <<>> /\ new # t.a
          THEN [t EXCEPT !.a = [n \in DOMAIN t.a |-> Subst(Flatten(t.a[n]), m)]]
-         ELSE [t EXCEPT !.a = new]
+         ELSE NormNode([t EXCEPT !.a = new])
     [] t.k = "pool" ->
          \* the indices are bound: pairs whose key is an index are dropped inside
          LET keep == IF "BoundIndexSubs" \in Dev THEN m
@@ -151,7 +170,7 @@ Eval(t, env) ==
     [] t.k = "val"  -> t
     [] t.k = "node" ->
          LET args == [n \in DOMAIN t.a |-> Eval(t.a[n], env)] IN
-         IF t.h \in EvalClasses THEN Unf(t.h, args, t.at) ELSE Node(t.h, args, t.at)
+         IF t.h \in EvalClasses THEN Unf(t.h, args, t.at) ELSE NormNode(Node(t.h, args, t.at))
     [] t.k = "unf"  -> [t EXCEPT !.a = [n \in DOMAIN t.a |-> Eval(t.a[n], env)]]
     [] t.k = "pool" ->
          \* the finite sum over the cartesian product of the pools; an inner index shadows
@@ -181,7 +200,11 @@ Cleanup(t) ==
   IF t.k # "pool" THEN t
   ELSE LET single(n) == Len(t.ix[n][2]) = 1
            unused(n)  == t.ix[n][1] \notin FreeSyms(Body(t))
+           sub0 == [s \in { t.ix[n][1] : n \in { j \in DOMAIN t.ix : single(j) } } |->
+                      LET n == CHOOSE j \in DOMAIN t.ix : t.ix[j][1] = s /\ single(j) IN t.ix[n][2][1]]
+           unusedAfter(n) == t.ix[n][1] \notin FreeSyms(Subst(Body(t), AsMap(sub0, DOMAIN sub0)))
            drop(n)    == single(n) \/ ("DropUnusedIndex" \in Dev /\ unused(n))
+                                   \/ ("DropIndexUnusedAfterSubst" \in Dev /\ unusedAfter(n))
            sub  == [s \in { t.ix[n][1] : n \in { j \in DOMAIN t.ix : single(j) } } |->
                       LET n == CHOOSE j \in DOMAIN t.ix : t.ix[j][1] = s /\ single(j) IN t.ix[n][2][1]]
            keepIx == SelectSeq([n \in DOMAIN t.ix |-> <<n, t.ix[n]>>], LAMBDA p : ~ drop(p[1]))
@@ -222,10 +245,13 @@ LawBoundIdentity(t, m) ==
 \* C18: cleanup keeps the value
 LawCleanup(t) == Doit(Cleanup(t)) = Doit(t)
 \* C18: free symbols = those of the summand minus the indices = those that survive evaluation
-LawFree(t) == FreeSyms(Doit(t)) = FreeSyms(t)
+\* (with the interpreted head a symbol can vanish in the evaluation: then only "no new symbol appears")
+FreeAlgebra(t) == \A u \in SubTerms(t) : ~ (u.k = "node" /\ u.h \in Absorbing)
+SameFree(t, a, b) == a \subseteq b /\ (FreeAlgebra(t) => a = b)
+LawFree(t) == SameFree(t, FreeSyms(Doit(t)), FreeSyms(t))
 \* C14: substitution is a homomorphism on nodes: class and attributes kept, arguments mapped
 LawHomomorphism(t, m) ==
-  (t.k = "node" /\ t \notin MapKeys(m)) =>
+  (t.k = "node" /\ t.h \notin Absorbing /\ t \notin MapKeys(m)) =>
      LET r == Subst(t, m) IN
      r.k = "node" /\ r.h = t.h /\ r.at = t.at /\ Len(r.a) = Len(t.a) /\
      \A n \in DOMAIN t.a : r.a[n] = Subst(t.a[n], m)
